@@ -23,11 +23,15 @@ Definition wgid := nat.
 
 Inductive alt := SendAlt (c : chan) | RecvAlt (c : chan) | DoneAlt | TimerAlt | DefaultAlt.
 
-Inductive iokind := RecvLine | WriteWire | PauseGate | FileIO | Unknown.
+(* [Check]: a computation of the stage itself that may fail (codec, parsing, a consistency
+   test of the stage): never blocks. *)
+Inductive iokind := RecvLine | WriteWire | PauseGate | FileIO | Check | Unknown.
 
 Inductive stmt :=
 | Sel (cs : list (alt * list stmt))     (* select; each case with its body *)
 | Io (k : iokind)                       (* wire / file operation from the fixed table *)
+| IoE (k : iokind) (h : list stmt)      (* the same with its error path TIED to it: the operation returns
+                                           without error (go on) or with an error (run h, then go on) *)
 | Cancel                                (* ctx.cancel(err) *)
 | IfCtxExit                             (* if ctx.Err() != nil { return } *)
 | Return                                (* return from the goroutine *)
@@ -113,6 +117,8 @@ Fixpoint mS (s : stmt) : nat :=
   | Branch a b =>
       1 + (fix ms (l : list stmt) : nat := match l with [] => 0 | x :: t => mS x + ms t end) a
         + (fix ms (l : list stmt) : nat := match l with [] => 0 | x :: t => mS x + ms t end) b
+  | IoE _ h =>
+      1 + (fix ms (l : list stmt) : nat := match l with [] => 0 | x :: t => mS x + ms t end) h
   | LoopCtx _ => 2
   | LoopRange _ bd =>
       3 + (fix ms (l : list stmt) : nat := match l with [] => 0 | x :: t => mS x + ms t end) bd
@@ -176,7 +182,7 @@ Definition check (me : pid) (infin : bool) (s : stmt) : option condition :=
   match s with
   | Sel cs => if negb (has_wake cs) then Some W1
               else if negb (forallb (fun c => alt_ok (fst c)) cs) then Some W4 else None
-  | Io Unknown => Some W5
+  | Io Unknown | IoE Unknown _ => Some W5
   | RecvClose c => if closer_ok me c then None else Some W3
   | LoopRange c bd => if negb (closer_ok me c) then Some W3
                       else if negb (exitsL bd) then Some W2 else None
@@ -204,7 +210,7 @@ Fixpoint okS (me : pid) (infin : bool) (s : stmt) : bool :=
   | Branch a b =>
       (fix ok (l : list stmt) : bool := match l with [] => true | x :: t => okS me infin x && ok t end) a &&
       (fix ok (l : list stmt) : bool := match l with [] => true | x :: t => okS me infin x && ok t end) b
-  | LoopCtx bd | LoopRange _ bd | LoopData bd =>
+  | IoE _ bd | LoopCtx bd | LoopRange _ bd | LoopData bd =>
       (fix ok (l : list stmt) : bool := match l with [] => true | x :: t => okS me infin x && ok t end) bd
   | _ => true
   end.
@@ -230,7 +236,7 @@ Fixpoint violS (me : pid) (infin : bool) (s : stmt) : list (pid * stmt * conditi
          match l with [] => [] | x :: t => violS me infin x ++ vl t end) a ++
       (fix vl (l : list stmt) : list (pid * stmt * condition) :=
          match l with [] => [] | x :: t => violS me infin x ++ vl t end) b
-  | LoopCtx bd | LoopRange _ bd | LoopData bd =>
+  | IoE _ bd | LoopCtx bd | LoopRange _ bd | LoopData bd =>
       (fix vl (l : list stmt) : list (pid * stmt * condition) :=
          match l with [] => [] | x :: t => violS me infin x ++ vl t end) bd
   | _ => []
@@ -270,6 +276,8 @@ Fixpoint assumeS (s : stmt) : stmt :=
   | Branch a b =>
       Branch ((fix mp (l : list stmt) : list stmt := match l with [] => [] | x :: t => assumeS x :: mp t end) a)
              ((fix mp (l : list stmt) : list stmt := match l with [] => [] | x :: t => assumeS x :: mp t end) b)
+  | IoE k bd =>
+      IoE k ((fix mp (l : list stmt) : list stmt := match l with [] => [] | x :: t => assumeS x :: mp t end) bd)
   | LoopCtx bd =>
       LoopCtx ((fix mp (l : list stmt) : list stmt := match l with [] => [] | x :: t => assumeS x :: mp t end) bd)
   | LoopRange c bd =>
@@ -303,7 +311,7 @@ Fixpoint flatS (s : stmt) : list stmt :=
   | Branch a b =>
       (fix fl (l : list stmt) : list stmt := match l with [] => [] | x :: t => flatS x ++ fl t end) a ++
       (fix fl (l : list stmt) : list stmt := match l with [] => [] | x :: t => flatS x ++ fl t end) b
-  | LoopCtx bd | LoopRange _ bd | LoopData bd =>
+  | IoE _ bd | LoopCtx bd | LoopRange _ bd | LoopData bd =>
       (fix fl (l : list stmt) : list stmt := match l with [] => [] | x :: t => flatS x ++ fl t end) bd
   | _ => []
   end.
@@ -328,6 +336,7 @@ Definition net_counts (N : net) : list nat :=
 Definition is_io (k : iokind) (s : stmt) : bool :=
   match s, k with
   | Io RecvLine, RecvLine | Io WriteWire, WriteWire | Io PauseGate, PauseGate | Io FileIO, FileIO => true
+  | IoE RecvLine _, RecvLine | IoE WriteWire _, WriteWire | IoE PauseGate _, PauseGate | IoE FileIO _, FileIO => true
   | _, _ => false
   end.
 Fixpoint afterS (k : iokind) (c : chan) (seen : bool) (s : stmt) : bool :=
@@ -348,6 +357,9 @@ Fixpoint afterS (k : iokind) (c : chan) (seen : bool) (s : stmt) : bool :=
          match l with [] => true | y :: t => afterS k c sn y && al (sn || is_io k y) t end) seen a &&
       (fix al (sn : bool) (l : list stmt) : bool :=
          match l with [] => true | y :: t => afterS k c sn y && al (sn || is_io k y) t end) seen b
+  | IoE _ h =>
+      (fix al (sn : bool) (l : list stmt) : bool :=
+         match l with [] => true | y :: t => afterS k c sn y && al (sn || is_io k y) t end) seen h
   | LoopCtx bd | LoopRange _ bd | LoopData bd =>
       (fix al (sn : bool) (l : list stmt) : bool :=
          match l with [] => true | y :: t => afterS k c sn y && al (sn || is_io k y) t end) false bd
@@ -376,7 +388,7 @@ Fixpoint underS (c d : chan) (guarded : bool) (s : stmt) : bool :=
          match l with [] => true | y :: t => underS c d gd y && ul gd t end) guarded a &&
       (fix ul (gd : bool) (l : list stmt) : bool :=
          match l with [] => true | y :: t => underS c d gd y && ul gd t end) guarded b
-  | LoopCtx bd | LoopRange _ bd | LoopData bd =>
+  | IoE _ bd | LoopCtx bd | LoopRange _ bd | LoopData bd =>
       (fix ul (gd : bool) (l : list stmt) : bool :=
          match l with [] => true | y :: t => underS c d gd y && ul gd t end) guarded bd
   | _ => true
@@ -471,52 +483,59 @@ Definition with_panic (g : gstate) : gstate :=
 Definition with_chans (g : gstate) (ch : chan -> chst) : gstate :=
   {| cancelled := cancelled g; panicked := panicked g; chans := ch; wgs := wgs g; procs := procs g |}.
 
-Inductive gstep : gstate -> gstate -> Prop :=
+(* one step of goroutine p *)
+Inductive lstep : pid -> gstate -> gstate -> Prop :=
 | g_sel g p f cs k a bd : procs g p = Running f (IStmt (Sel cs) :: k) -> In (a, bd) cs -> alt_enabled g a ->
-    gstep g (cont_ch g p f (lift bd ++ k) (alt_effect g a))
-| g_io g p f kd k : procs g p = Running f (IStmt (Io kd) :: k) -> io_ret kd = true -> gstep g (cont g p f k)
+    lstep p g (cont_ch g p f (lift bd ++ k) (alt_effect g a))
+| g_io g p f kd k : procs g p = Running f (IStmt (Io kd) :: k) -> io_ret kd = true -> lstep p g (cont g p f k)
+| g_ioe_ok g p f kd h k : procs g p = Running f (IStmt (IoE kd h) :: k) -> io_ret kd = true -> lstep p g (cont g p f k)
+| g_ioe_fail g p f kd h k : procs g p = Running f (IStmt (IoE kd h) :: k) -> io_ret kd = true ->
+    lstep p g (cont g p f (lift h ++ k))
 | g_cancel g p f k : procs g p = Running f (IStmt Cancel :: k) ->
-    gstep g {| cancelled := true; panicked := panicked g; chans := chans g; wgs := wgs g;
+    lstep p g {| cancelled := true; panicked := panicked g; chans := chans g; wgs := wgs g;
                procs := set_proc (procs g) p (Running f k) |}
-| g_ifctx_exit g p f k : procs g p = Running f (IStmt IfCtxExit :: k) -> cancelled g = true -> gstep g (exit_of g p f)
-| g_ifctx_go g p f k : procs g p = Running f (IStmt IfCtxExit :: k) -> cancelled g = false -> gstep g (cont g p f k)
-| g_return g p f k : procs g p = Running f (IStmt Return :: k) -> gstep g (exit_of g p f)
+| g_ifctx_exit g p f k : procs g p = Running f (IStmt IfCtxExit :: k) -> cancelled g = true -> lstep p g (exit_of g p f)
+| g_ifctx_go g p f k : procs g p = Running f (IStmt IfCtxExit :: k) -> cancelled g = false -> lstep p g (cont g p f k)
+| g_return g p f k : procs g p = Running f (IStmt Return :: k) -> lstep p g (exit_of g p f)
 | g_recv_item g p f c k : procs g p = Running f (IStmt (RecvClose c) :: k) -> 0 < len (chans g c) ->
-    gstep g (cont_ch g p f k (dec_len (chans g) c))
+    lstep p g (cont_ch g p f k (dec_len (chans g) c))
 | g_recv_closed g p f c k : procs g p = Running f (IStmt (RecvClose c) :: k) -> closed (chans g c) = true ->
-    len (chans g c) = 0 -> gstep g (cont g p f k)
+    len (chans g c) = 0 -> lstep p g (cont g p f k)
 | g_send_once g p f c k : procs g p = Running f (IStmt (SendOnce c) :: k) ->
     closed (chans g c) = false -> len (chans g c) < capof N c ->
-    gstep g (exit_of (with_chans g (inc_len (chans g) c)) p f)
+    lstep p g (exit_of (with_chans g (inc_len (chans g) c)) p f)
 | g_send_closed g p f c k : procs g p = Running f (IStmt (SendOnce c) :: k) ->
-    closed (chans g c) = true -> gstep g (exit_of (with_panic g) p f)
-| g_join g p f q k : procs g p = Running f (IStmt (Join q) :: k) -> procs g q = Exited -> gstep g (cont g p f k)
-| g_wgwait g p f w k : procs g p = Running f (IStmt (WgWait w) :: k) -> wgs g w = 0 -> gstep g (cont g p f k)
+    closed (chans g c) = true -> lstep p g (exit_of (with_panic g) p f)
+| g_join g p f q k : procs g p = Running f (IStmt (Join q) :: k) -> procs g q = Exited -> lstep p g (cont g p f k)
+| g_wgwait g p f w k : procs g p = Running f (IStmt (WgWait w) :: k) -> wgs g w = 0 -> lstep p g (cont g p f k)
 | g_wgadd g p f w k : procs g p = Running f (IStmt (WgAdd w) :: k) ->
-    gstep g {| cancelled := cancelled g; panicked := panicked g; chans := chans g;
+    lstep p g {| cancelled := cancelled g; panicked := panicked g; chans := chans g;
                wgs := set_wg (wgs g) w (S (wgs g w)); procs := set_proc (procs g) p (Running f k) |}
 | g_wgdone g p f w k : procs g p = Running f (IStmt (WgDone w) :: k) ->
-    gstep g {| cancelled := cancelled g;
+    lstep p g {| cancelled := cancelled g;
                panicked := panicked g || Nat.eqb (wgs g w) 0; chans := chans g;
                wgs := set_wg (wgs g) w (pred (wgs g w)); procs := set_proc (procs g) p (Running f k) |}
-| g_branch_l g p f a b k : procs g p = Running f (IStmt (Branch a b) :: k) -> gstep g (cont g p f (lift a ++ k))
-| g_branch_r g p f a b k : procs g p = Running f (IStmt (Branch a b) :: k) -> gstep g (cont g p f (lift b ++ k))
-| g_loopctx g p f bd k : procs g p = Running f (IStmt (LoopCtx bd) :: k) -> gstep g (cont g p f (IHeadCtx bd :: k))
+| g_branch_l g p f a b k : procs g p = Running f (IStmt (Branch a b) :: k) -> lstep p g (cont g p f (lift a ++ k))
+| g_branch_r g p f a b k : procs g p = Running f (IStmt (Branch a b) :: k) -> lstep p g (cont g p f (lift b ++ k))
+| g_loopctx g p f bd k : procs g p = Running f (IStmt (LoopCtx bd) :: k) -> lstep p g (cont g p f (IHeadCtx bd :: k))
 | g_headctx_in g p f bd k : procs g p = Running f (IHeadCtx bd :: k) -> cancelled g = false ->
-    gstep g (cont g p f (lift bd ++ IHeadCtx bd :: k))
-| g_headctx_out g p f bd k : procs g p = Running f (IHeadCtx bd :: k) -> gstep g (cont g p f k)
+    lstep p g (cont g p f (lift bd ++ IHeadCtx bd :: k))
+| g_headctx_out g p f bd k : procs g p = Running f (IHeadCtx bd :: k) -> lstep p g (cont g p f k)
 | g_looprange g p f c bd k : procs g p = Running f (IStmt (LoopRange c bd) :: k) ->
-    gstep g (cont g p f (IHeadRange c bd :: k))
+    lstep p g (cont g p f (IHeadRange c bd :: k))
 | g_range_item g p f c bd k : procs g p = Running f (IHeadRange c bd :: k) -> 0 < len (chans g c) ->
-    gstep g (cont_ch g p f (lift bd ++ IHeadRange c bd :: k) (dec_len (chans g) c))
+    lstep p g (cont_ch g p f (lift bd ++ IHeadRange c bd :: k) (dec_len (chans g) c))
 | g_range_closed g p f c bd k : procs g p = Running f (IHeadRange c bd :: k) -> closed (chans g c) = true ->
-    len (chans g c) = 0 -> gstep g (cont g p f k)
+    len (chans g c) = 0 -> lstep p g (cont g p f k)
 | g_loopdata g p f bd n k : procs g p = Running f (IStmt (LoopData bd) :: k) -> n <= D ->
-    gstep g (cont g p f (IHeadData bd n :: k))
+    lstep p g (cont g p f (IHeadData bd n :: k))
 | g_data_iter g p f bd n k : procs g p = Running f (IHeadData bd (S n) :: k) ->
-    gstep g (cont g p f (lift bd ++ IHeadData bd n :: k))
-| g_data_out g p f bd n k : procs g p = Running f (IHeadData bd n :: k) -> gstep g (cont g p f k)
-| g_end g p f : procs g p = Running f [] -> gstep g (exit_of g p f).
+    lstep p g (cont g p f (lift bd ++ IHeadData bd n :: k))
+| g_data_out g p f bd n k : procs g p = Running f (IHeadData bd n :: k) -> lstep p g (cont g p f k)
+| g_end g p f : procs g p = Running f [] -> lstep p g (exit_of g p f).
+
+(* one step of the net: any goroutine may move *)
+Definition gstep (g g' : gstate) : Prop := exists p, lstep p g g'.
 
 Inductive reach : gstate -> Prop :=
 | reach_init : reach init
@@ -524,10 +543,10 @@ Inductive reach : gstate -> Prop :=
 
 (* what is assumed about the Io operations, stated as what it is: a wire read returns (data,
    stop or timeout - the latter only if the configured timeout is positive), wire writes,
-   file operations and the pause gate return *)
+   file operations and the pause gate return, a computation of the stage itself returns *)
 Definition io_assumptions (timeout_pos : bool) : Prop :=
   (timeout_pos = true -> io_ret RecvLine = true) /\
-  io_ret WriteWire = true /\ io_ret PauseGate = true /\ io_ret FileIO = true.
+  io_ret WriteWire = true /\ io_ret PauseGate = true /\ io_ret FileIO = true /\ io_ret Check = true.
 
 (* n steps *)
 Inductive steps : nat -> gstate -> gstate -> Prop :=
